@@ -159,11 +159,13 @@ class BaseAmplitudeModel(AbsPDF):
             combine = [[i] for i in range(len(self.decay_group.chains))]
         o_used_chains = self.decay_group.chains_idx
         weights = []
-        for i in combine:
-            self.decay_group.set_used_chains(i)
-            weight = self.pdf(data)
-            weights.append(weight)
-        self.decay_group.set_used_chains(o_used_chains)
+        try:
+            for i in combine:
+                self.decay_group.set_used_chains(i)
+                weight = self.pdf(data)
+                weights.append(weight)
+        finally:
+            self.decay_group.set_used_chains(o_used_chains)
         return weights
 
     def partial_weight_interference(self, data):
